@@ -35,3 +35,25 @@ func TestDebugDoc(t *testing.T) {
 		}
 	}
 }
+
+// TestDebugRepeat renders $VERIF_DOC several times (fresh font configuration each) and reports trace differences.
+func TestDebugRepeat(t *testing.T) {
+	doc := os.Getenv("VERIF_DOC")
+	if doc == "" {
+		t.Skip("no VERIF_DOC")
+	}
+	var first string
+	for i := 0; i < 8; i++ {
+		r, err := wr.RenderWith(doc, wr.Opts{}, wr.FreshFC("pango"))
+		if err != nil {
+			t.Fatal(err)
+		}
+		tr := r.Rec.Trace()
+		if i == 0 {
+			first = tr
+			fmt.Println("calls:", len(r.Rec.Events), "pages:", len(r.Pages))
+		} else if tr != first {
+			fmt.Println("DIFF at render", i, firstDiff(first, tr))
+		}
+	}
+}
